@@ -208,6 +208,12 @@ fn parse_field(base_data_size: usize, field: &Field) -> Result<FieldDefinition> 
                                     "bitfield!: bit requires an inclusive range, for examples bits(10..=19). bit(10) allows specifying a single bit",
                                 ));
                             }
+                            if lower > upper {
+                                return Err(Error::new_spanned(
+                                    &range_span,
+                                    "bitfield!: Invalid bit-range: the lower limit must not exceed the upper limit",
+                                ));
+                            }
                             ranges.push(Range {
                                 start: lower,
                                 end: upper + 1,
